@@ -504,8 +504,24 @@ def check(run: Run) -> None:
                             "graph type (and the realisation snapshot handed to nested graphs) no longer reflects its content", loc=fa_.loc(fa_.body))
         run.sites(n_m, 5, "mutating GraphBuilder members")
 
+    with run.obligation("C07.m", "K2", "the copy-back of a run's final GlobalState into the user's selected state REPLACES it: GlobalStateView::copy_from assigns the whole store "
+                        "unconditionally (apart from its null checks) - a short-circuit on `the source is empty` leaves the keys a run consumed in the selected state, and "
+                        "the next graph built under the same context is seeded with them (a run's behaviour then depends on an earlier run)"):
+        fa = R.fn(run, "src/hgraph/runtime/global_state.cpp", "GlobalStateView::copy_from")
+        cn = R.aliases_of(fa)
+        stores = [x for x in fa.body.walk() if isinstance(x, C.Binary) and x.op == "=" and cn(x.l).replace(" ", "") == "*map_"]
+        run.sites(len(stores), 1, "store replacement")
+        run.count(1, "C07.m")
+        guards = [s0 for s0 in fa.body.stmts if isinstance(s0, C.If) and any(isinstance(x, C.Return) for x in s0.then.walk())]
+        bad = [cn(g.cond).replace(" ", "") for g in guards if re.search(r"size\(\)|empty\(\)", cn(g.cond))]
+        top = any(isinstance(st, C.ExprStmt) and st.e is stores[0] for st in fa.body.stmts)
+        if bad or not top:
+            run.finding("C07.m", "GlobalStateView::copy_from:conditional-replacement", f"copy_from does not always replace the destination store (early return when {bad or 'the assignment is nested'}): "
+                        "an EMPTY final state is not copied back, so the selected state keeps what the run erased", loc=fa.loc(stores[0]))
+
 
 VARIANTS = [
+    {"id": "m-seed-C07-9-copy-back-skips-empty-source", "expect": "C07.m", "edits": [{"file": "src/hgraph/runtime/global_state.cpp", "find": "        *map_ = other.as_value();", "replace": "        if (other.size() == 0) { return; }\n        *map_ = other.as_value();"}]},
     {"id": "l-seed-C07-8-seed-accessor-keeps-cached-types", "expect": "C07.l", "edits": [{"file": "src/hgraph/runtime/graph.cpp", "find": "GlobalStateView GraphBuilder::global_state() noexcept {\n  invalidate_types();\n  return global_state_.view();", "replace": "GlobalStateView GraphBuilder::global_state() noexcept {\n  return global_state_.view();"}]},
     {"id": "k-seed-C07-7-intern-hit-path-before-lock", "expect": "C07.k", "edits": [{"file": "src/hgraph/types/metadata/type_record_registry.cpp", "find": "        validate(definition);\n\n        std::lock_guard lock(m_mutex);\n        if (const auto found = m_entries.find(definition.key); found != m_entries.end())", "replace": "        validate(definition);\n\n        if (const auto found = m_entries.find(definition.key); found != m_entries.end())"}]},
     {"id": "h-seed-C07-6-injected-scheduler-supports-wall-clock-in-simulation", "expect": "C07.h", "edits": [{"file": "include/hgraph/types/static_node.h", "find": "                const bool supports_wall_clock = executor.valid() &&\n                                                 executor.schema()->mode == GraphExecutorMode::RealTime;", "replace": "                const bool supports_wall_clock = executor.valid() && view.evaluation_clock().valid();"}]},
